@@ -68,13 +68,14 @@ PROPS = {
             "runs": [ctl("faults", 640, 30, 12000, 40, 14), rep("rebuild", 160, 30, 3000, 40, 48)], "modelled": CTL + [
                 "integration: in the replicadiff rebuild profile one of three real RW replicas is killed (REST endpoint 503, data connections cut) behind the real remote backend / RPC client / monitoring; the write that follows must be acknowledged, the dead replica must leave the controller's list, and the survivors' images stay equal (requests killq, cmp)",
                 "partial: that the detector fires (ping ticker, RPC deadline, TCP close) is runtime behaviour; the model takes 'the monitor fires' / 'the call returns an error' as events"]},
-    "C08": {"lean": ["JivaVerif.Properties.C08", "JivaVerif.Properties.C08Fail", "JivaVerif.Properties.C12"], "prefixes": ["c08_", "c12_reopen", "recovers_untouched", "encode_effect", "flow_ge", "flow_cases", "old_survives_"],
+    "C08": {"lean": ["JivaVerif.Properties.C08", "JivaVerif.Properties.C08Fail", "JivaVerif.Properties.C08Data", "JivaVerif.Properties.C12"], "prefixes": ["c08_", "c12_reopen", "recovers_untouched", "encode_effect", "flow_ge", "flow_cases", "old_survives_"],
             "runs": [{"engine": "crashdiff", "profile": "all", "salt": 41, "workers": 16, "split": False,
                       "quick": {"n": 2, "len": 0, "timeout": 600}, "thorough": {"n": 24, "len": 0, "timeout": 6000}}],
             "modelled": ["proved (Lean, Model/Crash.lean): the metadata protocol of snapshot creation, snapshot removal and revert as the sequence of file-system calls the code issues; for EVERY prefix of that sequence (process death at any call boundary) the directory recovers to the chain before or the chain after, every member keeping its inode; every other metadata change is one encodeToFile, whose every prefix leaves the old or the new content; each program ends with a directory flush",
                          "tie of the call sequences: crashdiff renders the strace trace of the real operation (mutating calls, canonical names) and compares it, call by call, with the sequence `drv crash` prints for the same pre-state",
                          "proved (Lean, Model/CrashFail.lean, Properties/C08Fail.lean): the same operations WITH their error handling as trees (every call continues one way when it succeeds, another when it fails: the deferred clean-up of createDisk, the restore of volume.meta, rmDisk stopping at its first error, the probing open, Fatalf in removeDiskNode); for EVERY position of the one failing call: createDisk reports success only with the new chain recoverable and an error only with the old chain recoverable (c08_snapshot_fault; needed fix 8f81c09), revertDisk / RemoveDiffDisk / a single encodeToFile report success only with the new state and otherwise leave the old or the new state, never anything else (c08_revert_fault, c08_remove_fault, c08_update_fault)",
                          "tie of the error handling: crashdiff makes every mutating call of the real operation fail in turn (strace fault injection, ENOSPC and EIO, fsync included) and compares the calls the real code then issues, and the result it reports, with `drv crash … fail n` (trace / flow of the trees)",
+                         "proved (Properties/C08Data.lean): a torn write — ANY subset of the blocks of a request reached the head file when the process died — leaves every snapshot layer untouched, every unit outside the blocks of the request as it was, and every block of the request entirely old or entirely as the completed write leaves it (c08_torn_snapshots, c08_torn_live, c08_torn_outside); assumption: a single 4 KiB block is written atomically; crashdiff checks exactly this statement on the reopened directory after killing the real process at every call of a write",
                          "enumerated, not proved: for sampled pre-states and every management / data operation, EVERY boundary between two mutating file-system calls (strace, kill on entry of the call) and EVERY single failing call is exercised against the real replica code; the recovered directory is opened by the real code and compared with the state before and after — this is what covers the data path (an in-flight write may be partially applied, nothing else may change), the revision-counter block, and the attributes the crash model leaves out (size, flags, counters)",
                          "tie to the Lean replica model: the state after a completed operation and a reopen must be the one the model specifies (chain, attributes, counter, size, data)",
                          "assumed: kernel atomicity of a single call (rename, link, unlink, O_SYNC write of a small record); power-loss reordering is out of scope (process death + the directory-flush check)",
